@@ -245,6 +245,14 @@ def gentrace_case(rec):
     nticks = int(params['duration'] * tps)        # run_simulator's max_ticks
     cells = arrival_cells(text)
     hits = []
+    # what `run` does with the same parameters: a fresh generator asked once per tick for nticks ticks
+    direct = WorkloadGenerator(**params)
+    direct_ticks = [t for t in range(nticks) for _ in direct.run_one_tick()]
+    if direct_ticks != gen_ticks:
+        k = next((i for i, (a, b) in enumerate(zip(direct_ticks, gen_ticks)) if a != b), min(len(direct_ticks), len(gen_ticks)))
+        hits.append(dict(desc=f'run generates {len(direct_ticks)} pipelines in {nticks} ticks (duration {params["duration"]} s at '
+                              f'{tps} ticks/s), gentrace wrote {len(gen_ticks)} from {len(rw.counts)} ticks; first difference at '
+                              f'pipeline {k}', signature='roundtrip-count', recipe=rec, gen=rec['gen']))
     if len(cells) != len(gen_ticks) or len(ids) != len(cells) or tg.max_ticks != len(rw.counts):
         hits.append(dict(desc=f'trace has {len(cells)} pipelines, generator produced {len(gen_ticks)} in {len(rw.counts)} '
                               f'ticks (max_ticks {tg.max_ticks})', signature='roundtrip-count', recipe=rec, gen=rec['gen']))
